@@ -23,6 +23,7 @@ const (
 	Pure Kind = iota // int-valued, no I/O, int parameters
 	Proc             // arbitrary tail statement; only called for effect
 	Gen              // yields ints; int parameters
+	Maker            // returns a closure of one int argument
 )
 
 // Def is one global function definition (a complete top-level statement).
@@ -46,6 +47,10 @@ type G struct {
 	NoCompose bool
 	// MaxIter bounds loop iteration counts.
 	MaxIter int
+	// Pre holds helper definitions that must be submitted before the next definition.
+	Pre []string
+	// NeedDeep is set when a generated body calls the prelude's deep().
+	NeedDeep bool
 	nFn, nGn, nWr int
 	Feat map[string]int
 	evt  int
@@ -633,6 +638,56 @@ func (g *G) DefPure() Def {
 		s.funs = append(s.funs, "h")
 		lines = append(lines, g.Stmts(s, g.T.Draw(3), true)...)
 		src = name + " = (" + strings.Join(ps, ", ") + ") -> " + block(lines)
+	case t == 3 && !g.NoClosures: // generator closure made by a factory, consumed by a loop whose body makes calls
+		feats = append(feats, "def.closure_generator")
+		mk := "gm" + letters(g.nGn)
+		g.nGn++
+		step := g.lit()
+		g.Pre = append(g.Pre, mk+" = (b) -> () -> {\nyield b\nyield b + "+step+"\nyield b * 2\n}")
+		arg := g.lit()
+		if ar > 0 {
+			arg = ps[0]
+		}
+		s.used["t"], s.used["s"] = true, true
+		lines := []string{"t = " + mk + "(" + arg + ")", "s = 0"}
+		body := "s = s * 10 + e"
+		switch g.T.Draw(3) {
+		case 1:
+			body = "s = s * 10 + e + deep(" + fmt.Sprint(g.T.Draw(4)) + ")"
+			g.NeedDeep = true
+		case 2:
+			lines = append(lines, "h = (x) -> x + "+arg)
+			s.used["h"] = true
+			body = "s = s * 10 + h(e)"
+		}
+		lines = append(lines, "for e <- t() {\n"+body+"\n}", "s")
+		src = name + " = (" + strings.Join(ps, ", ") + ") -> " + block(lines)
+	case t == 5: // wide frame whose loop iterator reads its last local
+		feats = append(feats, "def.wide")
+		w := []int{3, 100, 127, 128, 129, 130, 200, 256, 300}[g.T.Draw(9)]
+		var lines []string
+		for i := 0; i < w; i++ {
+			lines = append(lines, PadName(i)+" = "+fmt.Sprint(i%7))
+		}
+		lastv := PadName(w - 1)
+		s.used["s"] = true
+		lines = append(lines, "s = 0", "for e <- fromto("+lastv+" - 2, "+lastv+" + 1) {\ns = s * 10 + e\n}")
+		if ar > 0 {
+			lines = append(lines, "s + "+ps[0])
+		} else {
+			lines = append(lines, "s + "+PadName(w/2))
+		}
+		src = name + " = (" + strings.Join(ps, ", ") + ") -> " + block(lines)
+	case t == 4 && !g.NoClosures: // returns a closure; callers bind and call it
+		feats = append(feats, "def.returns_closure")
+		k := s.fresh()
+		s.consts = append(s.consts, k)
+		lines := []string{k + " = " + g.IntExpr(s, 1)}
+		mk := name
+		src = mk + " = (" + strings.Join(ps, ", ") + ") -> " + block(append(lines, "(x) -> x * "+k+" + "+g.atom(s)))
+		d := Def{Name: name, Src: src, Kind: Maker, Arity: ar, Feat: feats}
+		g.Defs = append(g.Defs, d)
+		return d
 	default:
 		feats = append(feats, "def.freeform")
 		lines := g.Stmts(s, 1+g.T.Draw(4), true)
